@@ -173,6 +173,8 @@ def check(rep, an, tier):
                 if Fax == "#2":
                     CC.dim1(rep, res, ent)
                 CC.corner_map(rep, res, ent)
+                if l1:
+                    CC.zero_rows(rep, res, ent)
                 R.rule_effect_free(rep, res, ent)
                 R.rule_purity(rep, res, ent)
     rep.advisory("l1 sampling draws in the L1-normalised image of ALL gamut vertices (the cone's cross-section) and rescales to l1; that set "
